@@ -1,10 +1,19 @@
 """C07 - running the real single-flight code (cashews/decorators/locked.py `thunder_protection`, and the
 `protected=True` glue of cashews/wrapper/decorators.py) under the gate scheduler.
 
-A *case* is  {"variant": str, "callers": [[cid, key, n, kind, val], ...], "schedule": [entry, ...]}
-  caller cid calls f(key); if that call starts an execution, the wrapped body passes n scripted suspension
-  points and then returns val (kind "r") or raises exception class number val (kind "e").
+A *case* is  {"variant": str, "callers": [[cid, k, n, kind, val(, arg)], ...], "schedule": [entry, ...]}
+  caller cid calls f(k) - or, for the two-parameter variants, f(arg, k) / f(k=k, s=arg) (even caller ids use the
+  keyword spelling); if that call starts an execution, the wrapped body passes n scripted suspension points and then
+  returns val (kind "r"), raises exception class number val (kind "e"), or ENDS CANCELLED (kind "k": the body itself
+  raises CancelledError - val 0: `raise`, 1: an inner future it awaits is cancelled underneath it, 2: a child task it
+  awaits is cancelled; nobody cancels a caller and nobody cancels the execution task from outside).
   schedule entries: see harness/sfsched.py.
+
+The KEY of a call (`key_id`) is the cache key its arguments render to, as a small number - not the argument list:
+  one-parameter variants, and two-parameter variants whose template is "sf:{k}" ("omit": the parameter `s` is left out
+  of the key - a per-request session object in `cache_omit_obj`):  key = k, whatever `arg` is;
+  two-parameter variants with the default template ("all": every parameter is in the key):  key = (k, arg).
+Everything the harness counts per key (bodies running / started), the oracle and the model use this key.
 
 `execute(case)` returns a Run: the effective trace, one observation per trace entry (what every caller has
 received so far, how many bodies run / were started per key), the fine-grained event log written by the
@@ -22,12 +31,38 @@ from . import vtime
 from .sched import TASK_ID
 from .sfsched import SfSched
 
-VARIANTS = ["bare", "bare_default", "cache", "cache_default", "early", "soft", "cache_lock", "cache_gated", "early_gated",
-            "soft_gated"]
+OLD_VARIANTS = ["bare", "bare_default", "cache", "cache_default", "early", "soft", "cache_lock", "cache_gated", "early_gated",
+                "soft_gated"]
+# two-parameter function f2(s, k):  "omit" - key template "sf:{k}" leaves `s` out;  "all" - default template, both in the key
+TWO_PARAM = {"bare_omit": "omit", "cache_omit": "omit", "early_omit": "omit", "soft_omit": "omit", "cache_lock_omit": "omit",
+             "cache_omit_obj": "omit", "early_omit_obj": "omit", "cache_omit_gated": "omit",
+             "bare_default2": "all", "cache_default2": "all", "early_default2": "all"}
+VARIANTS = OLD_VARIANTS + list(TWO_PARAM)
+OMIT = [v for v in TWO_PARAM if TWO_PARAM[v] == "omit"]
+ALLARGS = [v for v in TWO_PARAM if TWO_PARAM[v] == "all"]
 CACHING = {v: not v.startswith("bare") for v in VARIANTS}
 # *_gated: the backend parks the execution right after a cache lookup that missed and right before it stores the
 # result, so the execution is in flight - and callers arrive - while the wrapped body is not (yet / any more) running
 GATED = {v: v.endswith("_gated") for v in VARIANTS}
+CANCEL_MODES = 3
+
+
+def arg_of(c) -> int:
+    return c[5] if len(c) > 5 else 0
+
+
+def key_id(variant: str, k: int, arg: int) -> int:
+    """the cache key of a call as a number (see the module docstring)"""
+    if TWO_PARAM.get(variant) == "all":
+        return 100 + 10 * k + arg
+    return k
+
+
+class Session:
+    """stand-in for a per-request object that is deliberately kept out of the key (its str() holds its address)"""
+
+    def __init__(self, v):
+        self.v = v
 TTL = 1024          # seconds; no run lets more than a few ticks pass
 INNER_TTL = 512
 
@@ -68,11 +103,13 @@ class Run:
     busy_waits: int = 0
 
 
-def outcome_code(task: asyncio.Task) -> str:
+def outcome_code(task: asyncio.Task, own_cancel: bool = True) -> str:
+    """C: the caller itself was cancelled (by the schedule);  K: it ended with CancelledError without having been
+    cancelled - what the await of an execution that ended cancelled delivers"""
     if not task.done():
         return "W"
     if task.cancelled():
-        return "C"
+        return "C" if own_cancel else "K"
     exc = task.exception()
     if exc is not None:
         for i, cls in enumerate(EXC):
@@ -138,13 +175,50 @@ def gates_of(variant: str, n: int, kind: str) -> int:
 
 
 def build(variant: str, body):
-    """decorate `body` (an `async def f(k)`) the way the variant says; returns (callable, closer)"""
+    """decorate `body` the way the variant says; returns (callable taking (k, arg, keyword_spelling), closer)"""
+    g, cache = _build(variant, body)
+    if variant not in TWO_PARAM:
+        return (lambda k, arg, kw: g(k)), cache
+    obj = variant.endswith("_obj")
+
+    def call(k, arg, kw):
+        s_ = Session(arg) if obj else arg
+        return g(k=k, s=s_) if kw else g(s_, k)
+    return call, cache
+
+
+def _build(variant: str, body):
     import cashews
     from cashews import Cache
 
     async def f(k):
-        return await body(k)
+        return await body(k, None)
 
+    async def f2(s, k):
+        return await body(k, s)
+
+    if variant in TWO_PARAM:
+        if variant == "bare_omit":
+            return cashews.thunder_protection(key="sf:{k}")(f2), None
+        if variant == "bare_default2":
+            return cashews.thunder_protection()(f2), None
+        cache = Cache()
+        cache.setup(gate_backend() if GATED[variant] else "mem://")
+        if variant in ("cache_omit", "cache_omit_obj", "cache_omit_gated"):
+            g = cache.cache(ttl=TTL, key="sf:{k}")(f2)
+        elif variant in ("early_omit", "early_omit_obj"):
+            g = cache.early(ttl=TTL, early_ttl=INNER_TTL, key="sf:{k}")(f2)
+        elif variant == "soft_omit":
+            g = cache.soft(ttl=TTL, soft_ttl=INNER_TTL, key="sf:{k}")(f2)
+        elif variant == "cache_lock_omit":
+            g = cache.cache(ttl=TTL, key="sf:{k}", lock=True)(f2)
+        elif variant == "cache_default2":
+            g = cache(ttl=TTL)(f2)
+        elif variant == "early_default2":
+            g = cache.early(ttl=TTL, early_ttl=INNER_TTL)(f2)
+        else:
+            raise ValueError(variant)
+        return g, cache
     if variant == "bare":
         return cashews.thunder_protection(key="sf:{k}")(f), None
     if variant == "bare_default":
@@ -169,7 +243,8 @@ def build(variant: str, body):
 def execute(case: dict, cancel_budget: int = 0) -> Run:
     run = Run()
     callers = [tuple(c) for c in case["callers"]]
-    keys = sorted({c[1] for c in callers})
+    variant = case["variant"]
+    keys = sorted({key_id(variant, c[1], arg_of(c)) for c in callers})
     running = {k: 0 for k in keys}
     starts = {k: 0 for k in keys}
     run.maxrun = {k: 0 for k in keys}
@@ -178,7 +253,23 @@ def execute(case: dict, cancel_budget: int = 0) -> Run:
     sched.log = run.events.append
     _CURRENT[0] = sched
 
-    async def body(k):
+    async def end_cancelled(mode):
+        """the body's own await is cancelled underneath it (nobody cancels this task)"""
+        loop = asyncio.get_running_loop()
+        if mode % CANCEL_MODES == 0:
+            raise asyncio.CancelledError()
+        if mode % CANCEL_MODES == 1:            # a reply future dropped by whoever owes it
+            fut = loop.create_future()
+            loop.call_soon(fut.cancel)
+            return await fut
+        never = asyncio.Event()                 # a child task that is cancelled
+        child = loop.create_task(never.wait())
+        loop.call_soon(child.cancel)
+        return await child
+
+    async def body(k_, s_):
+        # the key is computed from the arguments the body actually received
+        k = key_id(variant, k_, s_.v if isinstance(s_, Session) else (s_ if s_ is not None else 0))
         cid, n, kind, val = SCRIPT.get()
         run.events.append(("start", cid, k))
         running[k] = running.get(k, 0) + 1
@@ -187,33 +278,39 @@ def execute(case: dict, cancel_budget: int = 0) -> Run:
         tok = TASK_ID.set(("x", cid))
         how = "ok"
         try:
-            for i in range(n):
-                await sched.point(("step", i))
+            try:
+                for i in range(n):
+                    await sched.point(("step", i))
+            except asyncio.CancelledError:
+                how = "cancelled"               # cancelled from outside at a scheduler point: never scripted
+                raise
             if kind == "r":
                 return val
+            if kind == "k":
+                return await end_cancelled(val)
             raise EXC[val]()
-        except asyncio.CancelledError:
-            how = "cancelled"
-            raise
         finally:
             running[k] -= 1
             run.events.append(("end", cid, k, how, kind, val))
             TASK_ID.reset(tok)
 
     async def main():
-        f, cache = build(case["variant"], body)
+        f, cache = build(variant, body)
 
-        def prog(cid, k, n, kind, val):
+        def prog(cid, k, n, kind, val, arg=0):
             async def go():
                 SCRIPT.set((cid, n, kind, val))
-                run.events.append(("call", cid, k))
-                return await f(k)
+                run.events.append(("call", cid, key_id(variant, k, arg), arg))
+                return await f(k, arg, cid % 2 == 0)
             return go
+
+        def code(cid, t):
+            return outcome_code(t, cid in sched.cancelled_by_harness)
 
         def snapshot():
             st = {}
             for cid, t in sched.callers.items():
-                st[cid] = "N" if ("c", cid) in sched.parked else outcome_code(t)
+                st[cid] = "N" if ("c", cid) in sched.parked else code(cid, t)
             run.events.append(("quiet",))
             return {"callers": st, "running": dict(running), "starts": dict(starts)}
 
@@ -227,7 +324,7 @@ def execute(case: dict, cancel_budget: int = 0) -> Run:
             run.busy_waits = sched.busy_waits
             run.branching = sched.branching
             run.cancelled_by_harness = list(sched.cancelled_by_harness)
-            run.final = {cid: outcome_code(t) for cid, t in sched.callers.items()}
+            run.final = {cid: code(cid, t) for cid, t in sched.callers.items()}
             run.leftover = sum(running.values())
             run.ticks = vtime.CLOCK.ticks()
             run.frozen = list(run.events)      # what the loop clean-up does later is not part of the run
